@@ -203,7 +203,9 @@ def pool_scalars():
 def other_units(q):
     db = q.GetUnitDatabase()
     try:
-        return [u for u in db.GetUnits(q.GetQuantityType()) if u != q.GetUnit()][:4]
+        us = [u for u in db.GetUnits(q.GetQuantityType()) if u != q.GetUnit()]
+        pref = [u for u in ("cm", "km", "m", "ft", "in", "K", "degF", "degC", "Pa", "psi", "bar", "min", "h", "s") if u in us]
+        return list(dict.fromkeys(us[:4] + pref))
     except Exception:
         return []
 
@@ -1775,3 +1777,92 @@ def array_powers(h):
                     if not close(mr, op(mx, my), 1e-9):
                         return {"reproduced": True, "call": call + " element %d (base magnitudes)" % i, "observed": mr, "expected": op(mx, my)}
     return {"reproduced": False}
+
+
+# ------------------------------------------------------------------------------------------------
+# BOUNDED stand-in for history effects (memo tables / caches added to the database or to value objects, whose
+# contents no contract describes): a prelude of legal but unusual calls, then the ordinary probes in the same
+# process - every probe compares with an oracle that does not depend on the history.
+def _history_prelude():
+    import numpy
+    from barril.units import Scalar, Array, Quantity, ObtainQuantity, GetUnknownQuantity
+    from barril.units.unit_database import UnitDatabase
+
+    db = UnitDatabase.GetSingleton()
+    n = 0
+
+    def attempt(fn):
+        nonlocal n
+        n += 1
+        try:
+            return fn()
+        except Exception:
+            return None
+
+    # values of the Unknown quantity type asked for real units (any label resolves there)
+    for u in ("cm", "km", "m", "s", "min", "degC", "K", "psi", "m2", "cm2", "ft"):
+        attempt(lambda: Scalar(GetUnknownQuantity(u), 5.0).GetValue(u))
+        attempt(lambda: Scalar(GetUnknownQuantity("label"), 5.0).GetValue(u))
+        attempt(lambda: Array(GetUnknownQuantity(u), [1.0, 2.0]).GetValues(u))
+    # failed lookups and conversions across quantity types
+    for qt, u in (("length", "s"), ("time", "m"), ("temperature", "psi"), ("no such type", "m"), ("length", "no such unit")):
+        attempt(lambda: db.GetInfo(qt, u))
+        attempt(lambda: db.Convert(qt, u, "m", 1.0))
+        attempt(lambda: db.CheckCategoryUnit(qt, u))
+        attempt(lambda: Scalar(1.0, "m").GetValue(u))
+        attempt(lambda: ObtainQuantity(u, qt))
+    # unit matching with several exponents for the same pairs of units, in both orders, every value kind
+    m, cm, km, s, h = (Scalar(2.0, x) for x in ("m", "cm", "km", "s", "h"))
+    powers = lambda x: [x, x * x, x * x * x, 1.0 / x, 1.0 / (x * x)]
+    for a in powers(m) + powers(km):
+        for b in powers(cm) + powers(m):
+            for op in (lambda x, y: x + y, lambda x, y: x - y, lambda x, y: x * y, lambda x, y: x / y, lambda x, y: y + x, lambda x, y: y * x):
+                attempt(lambda: op(a, b))
+    for ka in (list, tuple, numpy.array):
+        for kb in (list, tuple, numpy.array):
+            A, B = Array(ka([1.0, 2.0]), "m"), Array(kb([10.0, 20.0]), "cm")
+            for op in (lambda x, y: x * y, lambda x, y: x * (y * y), lambda x, y: (x * x) + (y * y), lambda x, y: x / (y * y * y)):
+                attempt(lambda: op(A, B))
+                attempt(lambda: op(B, A))
+    # validity verdicts, copies with other units / categories
+    for c in ("length", "depth", "temperature"):
+        sc = attempt(lambda: Scalar(c, 1.0, db.GetDefaultUnit(c)))
+        if sc is not None:
+            attempt(sc.IsValid)
+            attempt(sc.GetValidUnits)
+            for u in attempt(lambda: db.GetValidUnits(c)) or []:
+                attempt(lambda: sc.CreateCopy(unit=u).IsValid())
+    attempt(lambda: Scalar(1.0, "km", "depth").GetValidUnits())
+    attempt(db.GetUnits)
+    attempt(db.GetInfos)
+    return n
+
+
+def _history_run(names):
+    n = _history_prelude()
+    for rnd in range(2):
+        for name in names:
+            r = PROBES[name]({})
+            if r.get("reproduced"):
+                r["call"] = "after a prelude of %d legal calls (unknown-quantity values asked for real units, failed lookups, unit matching with several exponents, validity queries) and %d earlier probes: %s" % (n, rnd * len(names), r.get("call"))
+                r["evaluations"] = n
+                return r
+    return {"reproduced": False, "evaluations": n + 2 * len(names)}
+
+
+@probe("history_conversions")
+def history_conversions(h):
+    """BOUNDED: conversions answer the same after an arbitrary-looking history (C02 / C15)"""
+    return _history_run(["scalar_getvalue", "db_lookup", "convert_exp", "array_getvalues", "construct_forms"])
+
+
+@probe("history_arithmetic")
+def history_arithmetic(h):
+    """BOUNDED: arithmetic answers the same after an arbitrary-looking history (C03 / C04 / C15)"""
+    return _history_run(["arith", "array_powers", "array_ops"])
+
+
+@probe("history_all")
+def history_all(h):
+    """BOUNDED: queries, conversions, arithmetic, validity after a history (C15)"""
+    return _history_run(["pure_queries", "scalar_getvalue", "db_lookup", "convert_exp", "arith", "array_powers", "validity", "obtain", "construct_forms"])
